@@ -107,7 +107,7 @@ CHECKS = {
         technique="runtime monitoring: independent renderer (Python, from os.lstat/os.stat/os.readlink and string operations on the path text) compared byte-for-byte with the output captured from the real find (in-process, binary sample, -fprintf files read back); oracle-free identities %p = -print and %H/%P recomposition",
         level="exploration",
         text="Random format strings (1-8 pieces: ASCII and multi-byte literals, every escape incl. \\NNN, %%, directives p f h H P d s n i U G m y Y l with optional '-' flag and width 0-40) rendered for every entry of a tree with all file types, links to file/dir/fifo/dangling, setuid/setgid/sticky modes, foreign owners, hard links and multi-byte names, under 19 starting-point spellings (r, ./r, r/, ., ./, absolute, absolute/, sub-directory, link to directory, link/, link to file, dangling link, file, several roots, r//, inner //) and -P/-H/-L. Quick ~3200 formats / ~50k (format, entry) renderings, 180 (directive, mode, flag, width) cells.",
-        note="(The former finding percent-H-root-with-trailing-slash is repaired; its signature is still computed, so a recurrence is reported as a fresh violation.) Not judged: leading zeros of %m, \\NNN above 177, width on non-ASCII values beyond "padded to the width in characters or in bytes" (the statement does not name the unit), %Y under -H/-L and for dangling links, %l for links the follow mode resolves, %h with // or directly below /, %f/%h of dot components.",
+        note="(The former finding percent-H-root-with-trailing-slash is repaired; its signature is still computed, so a recurrence is reported as a fresh violation.) Not judged: leading zeros of %m, \\NNN above 177, width on non-ASCII values beyond 'padded to the width in characters or in bytes' (the statement does not name the unit), %Y under -H/-L and for dangling links, %l for links the follow mode resolves, %h with // or directly below /, %f/%h of dot components.",
         ref="DESIGN.md section 4 C16"),
     "C18": dict(
         technique="runtime monitoring: per-starting-point reference walk (paths formed textually from the starting point as spelled) compared with the -print0 output, stderr and exit status of the real binary; operands vs -files0-from equivalence as an oracle-free relation",
